@@ -13,10 +13,12 @@ THEOREMS = ["QExPy.C07_poly_model", "QExPy.C07_lin", "QExPy.C07_quad", "QExPy.C0
             "QExPy.C07_band", "QExPy.C07_band_all", "QExPy.C07_band_poly", "QExPy.C07_band_preset", "QExPy.C07_reversed_fold_witness", "QExPy.C07_grad_exact",
             "QExPy.C01_quadratic_form", "QExPy.C03_diff_correct"]
 RULE = ("the C06 fits on the whole data set (every pre-set model, polynomial degrees 1-5, three user "
-        "models, every sigma pattern, every data-passing form), 4 evaluation points each, evaluated "
+        "models, every sigma pattern incl. sigma_y with exact zeros, every data-passing form, 60 % "
+        "rescaled to other units by 1e-12..1e12, nearly uncorrelated parameters), 4 evaluation "
+        "points each, evaluated "
         "as scalars, as a list and as an array; fit_function value/uncertainty, residuals (value "
         "and uncertainty), chi-squared, registered correlations and the matrix parsed from "
-        "str(result) vs the Lean FitResult model run on the implementation's own parameters and "
+        "str(result) (3 decimals and 17 digits) vs the Lean FitResult model run on the implementation's own parameters and "
         "covariance (tolerance: FB running error bound); non-trivial = >= 2 parameters and a "
         "non-zero off-diagonal covariance; distinct by hash of the data set")
 ASSUMPTIONS = ["theorems are over the reals; binary64 rounding compared under the FB running error "
@@ -47,8 +49,37 @@ def gen_cases(ctx, n):
         cases.append(G.gen_case(ctx.rng, family=fam, want_range=False, noise_free=False))
     for form in G.FORMS:
         cases.append(G.gen_case(ctx.rng, form=form, want_range=False, noise_free=False, sy="none"))
+    # the same problems in other units: x and y scaled independently by 1e-12 ... 1e12 (small-unit
+    # data have covariances of 1e-13 and less; every comparison below is relative)
+    ext = [(1e-6, 1e-6), (1e-12, 1e12), (1e6, 1e-6), (1e12, 1e12), (1.0, 1e-6), (1e-3, 1e-12),
+           (1.0, 1e6)]
+    fams = ("linear", "quadratic", "polynomial", "exponential", "gaussian", "custom:sine",
+            "custom:lorentz")
+    for k, u in enumerate(ext):
+        cases.append(G.gen_case(ctx.rng, family="linear", want_range=False, units=u))
+        cases.append(G.gen_case(ctx.rng, family=fams[k % len(fams)], want_range=False,
+                                noise_free=False, units=u))
+    # some ordinates exactly known (sigma_y = 0 there, sigma_x > 0 everywhere): chi-squared is over
+    # the points with sigma_y > 0 only
+    for k, fam in enumerate(("exponential", "gaussian", "custom:sine", "custom:growth")):
+        cases.append(G.gen_case(ctx.rng, family=fam, want_range=False, noise_free=False, sy="yzeros",
+                                units=None if k % 2 else (ext[k][0], ext[k + 1][1])))
+    # (almost) uncorrelated parameters: small correlations are registered like any other
+    for k in range(4):
+        cases.append(G.gen_centred(ctx.rng, units=None if k < 2 else ext[k]))
     while len(cases) < n:
-        cases.append(G.gen_case(ctx.rng, want_range=(ctx.rng.random() < 0.1), noise_free=False))
+        if ctx.rng.random() < 0.03:
+            cases.append(G.gen_centred(ctx.rng))
+            continue
+        if ctx.rng.random() < 0.06:
+            cases.append(G.gen_case(ctx.rng, family=ctx.rng.choice(fams[3:] + ("custom:growth",)),
+                                    want_range=False, noise_free=False, sy="yzeros"))
+            continue
+        u = None
+        if ctx.rng.random() < 0.6:
+            u = (ctx.rng.choice(G.SCALES), ctx.rng.choice(G.SCALES))
+        cases.append(G.gen_case(ctx.rng, want_range=(ctx.rng.random() < 0.1), noise_free=False,
+                                units=u))
     return cases
 
 
